@@ -269,8 +269,8 @@ Section ImportFacts.
   Proof.
     intros V. unfold imp_add.
     cbn [i_closed i_version i_stack i_nonces e_version e_height e_key e_value].
-    destruct (v <? ver m) eqn:E1; [lia|]. cbn [Z.eqb].
-    destruct ((ver m <? 0) || (v + 1 <=? ver m)) eqn:E2; [lia|].
+    destruct (v <? ver m) eqn:E1; [lia|]. destruct (ver m <? 0) eqn:E0; [lia|]. cbn [Z.eqb orb].
+    destruct (v + 1 <=? ver m) eqn:E2; [lia|].
     do 2 eexists. split; [|reflexivity].
     unfold pshape; cbn. auto 10.
   Qed.
@@ -292,12 +292,12 @@ Section ImportFacts.
     destruct Pl as (_ & Phl & Psl & _). destruct Pr as (_ & Phr & Psr & _).
     unfold imp_add.
     cbn [i_closed i_version i_stack i_nonces e_version e_height e_key e_value].
-    destruct (v <? ver m) eqn:E1; [lia|].
+    destruct (v <? ver m) eqn:E1; [lia|]. destruct (ver m <? 0) eqn:E0; [lia|].
     destruct (h =? 0) eqn:E2; [lia|].
     rewrite Phl, Phr.
     destruct ((height r <? h) && (height l <? h)) eqn:E3; [|lia].
-    rewrite Wl', Wr'.
-    destruct ((ver m <? 0) || (v + 1 <=? ver m)) eqn:E4; [lia|].
+    rewrite Wl', Wr'. cbn [orb].
+    destruct (v + 1 <=? ver m) eqn:E4; [lia|].
     do 2 eexists. split; [|reflexivity].
     unfold pshape; cbn. repeat split; auto; try lia.
     exists l', r'. auto.
@@ -382,8 +382,8 @@ Section ImportFacts.
   Proof.
     intros V B. unfold imp_run. rewrite imp_new_ok by lia. cbn [ibind imp_adds].
     unfold imp_add. cbn [i_closed i_version i_stack i_nonces e_version e_height e_key e_value].
-    destruct (v <? ver m) eqn:E3; [lia|]. cbn [Z.eqb].
-    destruct ((ver m <? 0) || (v + 1 <=? ver m)) eqn:E4; [lia|]. cbn [ibind].
+    destruct (v <? ver m) eqn:E3; [lia|]. destruct (ver m <? 0) eqn:E0; [lia|]. cbn [Z.eqb orb].
+    destruct (v + 1 <=? ver m) eqn:E4; [lia|]. cbn [ibind].
     unfold imp_commit, write_node, set_nonce.
     cbn [i_closed i_stack p_key p_value p_height p_size p_ver p_nonce p_kids].
     destruct (ver m <=? 0) eqn:E5; [lia|]. reflexivity.
@@ -545,7 +545,7 @@ Proof.
     + intros mk rest. rewrite <- !app_assoc. rewrite Dl, Dr.
       cbn [app decompress_from]. unfold cimp_step. subst c.
       cbn [e_height e_key e_value e_version ci_last ci_minkeys ci_vers].
-      destruct (h =? 0) eqn:E; [lia|].
+      destruct (h =? 0) eqn:E; [lia|]. cbn [length Nat.ltb Nat.leb orb].
       rewrite wrap64_delta by exact Vm. cbn [ibind last_key min_key nmeta].
       rewrite iprep_cons, !iprep_iprep. rewrite <- Ek, <- app_assoc. reflexivity.
 Qed.
@@ -610,47 +610,23 @@ Proof.
   rewrite (cimp_adds_decompress H cs cimp_init st _ D). exact E.
 Qed.
 
-(** * 4. When can the importers panic? *)
+(** * 4. The importers are total: no stream can make them panic *)
 
-(** ** Plain importer: REFUTED totality.  One leaf with a negative version makes
-    [i.nonces[exportNode.Version]++] index out of range (the only guard is
-    [Version > i.version]). *)
-Definition hostile_negative_version : list (option enode) :=
-  [Some (ENode (Some [107%N]) (Some [118%N]) (-1) 0)].
-
-Theorem importer_panics_refuted :
-  exists v stream, forall H : bytes -> bytes, imp_run H v stream = IPanic.
-Proof. exists 1, hostile_negative_version. intros H. vm_compute. reflexivity. Qed.
-
-(** The panic is also reached after valid nodes, when the hostile node is an inner node
-    whose two children have just been written to the batch. *)
-Definition hostile_negative_inner : list (option enode) :=
-  [Some (ENode (Some [97%N]) (Some [1%N]) 1 0);
-   Some (ENode (Some [98%N]) (Some [2%N]) 1 0);
-   Some (ENode (Some [98%N]) None (-9223372036854775808) 1)].
-
-Theorem importer_panics_inner_refuted :
-  forall H : bytes -> bytes, imp_run H 1 hostile_negative_inner = IPanic.
-Proof. intros H. vm_compute. reflexivity. Qed.
-
-(** [make([]uint32, version+1)] in newImporter with an absurd import version. *)
-Theorem importer_new_panics_refuted :
-  forall H : bytes -> bytes, imp_run H 9223372036854775807 [] = IPanic.
-Proof. intros H. vm_compute. reflexivity. Qed.
-
-(** ... and these are the only panics: every other index / stack access is guarded. *)
-Lemma imp_add_panic H st on :
-  imp_add H st on = IPanic -> exists n, on = Some n /\ e_version n < 0.
+(** Every slice access of the model keeps its explicit bounds check ([IPanic] branch); the
+    theorems below say that the guards of the code make all of them unreachable, for
+    EVERY stream: nil nodes, negative / zero / too-large versions, any heights, nil or
+    empty keys and values, any order. *)
+Lemma imp_add_no_panic H st on : imp_add H st on <> IPanic.
 Proof.
   unfold imp_add. destruct (i_closed st); [discriminate|].
   destruct on as [n|]; [|discriminate].
-  destruct (i_version st <? e_version n) eqn:E; [discriminate|]. cbv zeta.
+  destruct (i_version st <? e_version n) eqn:E; [discriminate|].
+  destruct (e_version n <? 0) eqn:E0; [discriminate|]. cbv zeta.
   match goal with
   | |- context [match ?b with IOk _ => _ | IErr => _ | IPanic => _ end] =>
       destruct b as [[[stk sz] kids]| |] eqn:B
   end.
-  - destruct ((e_version n <? 0) || (i_version st + 1 <=? e_version n)) eqn:E1; [|discriminate].
-    intros _. exists n. split; [reflexivity|lia].
+  - cbn [orb]. destruct (i_version st + 1 <=? e_version n) eqn:E1; [lia|discriminate].
   - discriminate.
   - exfalso. clear - B.
     destruct (e_height n =? 0); [discriminate|].
@@ -659,13 +635,11 @@ Proof.
     destruct (write_node H l); [|discriminate]. destruct (write_node H r); discriminate.
 Qed.
 
-Lemma imp_adds_panic H : forall stream st,
-  imp_adds H st stream = IPanic -> exists n, In (Some n) stream /\ e_version n < 0.
+Lemma imp_adds_no_panic H : forall stream st, imp_adds H st stream <> IPanic.
 Proof.
-  induction stream as [|on rest IH]; intros st E; cbn [imp_adds] in E; [discriminate|].
-  destruct (imp_add H st on) as [st'| |] eqn:A; cbn [ibind] in E; try discriminate.
-  - destruct (IH _ E) as (n & I & L). exists n. split; [right; exact I|exact L].
-  - destruct (imp_add_panic _ _ _ A) as (n & -> & L). exists n. split; [left; reflexivity|exact L].
+  induction stream as [|on rest IH]; intros st; cbn [imp_adds]; [discriminate|].
+  destruct (imp_add H st on) as [st'| |] eqn:A; cbn [ibind]; [apply IH|discriminate|].
+  exfalso. exact (imp_add_no_panic _ _ _ A).
 Qed.
 
 Lemma imp_commit_no_panic H st : imp_commit H st <> IPanic.
@@ -675,76 +649,127 @@ Proof.
   destruct (write_node H (set_nonce p 1)); discriminate.
 Qed.
 
-Theorem importer_panic_characterised H v stream :
-  imp_run H v stream = IPanic ->
-  max_nonces_len <= v \/ exists n, In (Some n) stream /\ e_version n < 0.
+Lemma imp_new_no_panic latest empty v : v < max_nonces_len -> imp_new latest empty v <> IPanic.
 Proof.
-  unfold imp_run, imp_new. destruct (v <? 0) eqn:E1; [discriminate|].
-  change (0 <? 0) with false. cbn [negb].
-  destruct (max_nonces_len <? v + 1) eqn:E2; [intros _; left; lia|].
-  cbn [ibind]. destruct (imp_adds H _ stream) as [st| |] eqn:A; cbn [ibind]; try discriminate.
-  - intros C. exfalso. exact (imp_commit_no_panic H st C).
-  - intros _. right. eapply imp_adds_panic. exact A.
+  intros B. unfold imp_new. destruct (v <? 0); [discriminate|].
+  destruct (0 <? latest); [discriminate|]. destruct (negb empty); [discriminate|].
+  destruct (max_nonces_len <? v + 1) eqn:E; [lia|discriminate].
 Qed.
 
-(** Hence: with non-negative node versions and a sane import version the importer is
-    total in the strong sense (every access guarded). *)
-Corollary importer_total_nonneg H v stream :
-  v < max_nonces_len ->
-  (forall n, In (Some n) stream -> 0 <= e_version n) ->
-  imp_run H v stream <> IPanic.
+Theorem importer_total_gen H v stream : v < max_nonces_len -> imp_run H v stream <> IPanic.
 Proof.
-  intros B N E. destruct (importer_panic_characterised H v stream E) as [L | (n & I & L)]; [lia|].
-  specialize (N n I). lia.
+  intros B. unfold imp_run. pose proof (imp_new_no_panic 0 true v B) as N.
+  destruct (imp_new 0 true v) as [st0| |]; cbn [ibind]; [|discriminate|congruence].
+  pose proof (imp_adds_no_panic H stream st0) as A.
+  destruct (imp_adds H st0 stream) as [st| |]; cbn [ibind]; [|discriminate|congruence].
+  apply imp_commit_no_panic.
 Qed.
 
-(** ** Compress importer: REFUTED totality, three independent ways. *)
+Theorem importer_total H v stream :
+  0 <= v < max_nonces_len -> imp_run H v stream <> IPanic.
+Proof. intros B. apply importer_total_gen. lia. Qed.
 
-(** (a) an inner node first: [i.minKeyStack[len-1]] with an empty stack *)
-Definition hostile_compress_inner_first : list cnode := [ENode None None 0 1].
-(** (b) one leaf then an inner node: [i.versionStack[len-2]] with one element *)
-Definition hostile_compress_one_leaf : list cnode :=
-  [ENode (Some [0%N; 97%N]) (Some [1%N]) 1 0; ENode None None 0 1].
-(** (c) a leaf whose shared-prefix length exceeds the previous key: [lastKey[:shared]] *)
-Definition hostile_compress_shared : list cnode := [ENode (Some [5%N; 97%N]) (Some [1%N]) 1 0].
+(** Documented limitation, outside the quantifier of [importer_total]: the import version
+    is the caller's own (trusted) parameter, and [make([]uint32, version+1)] in newImporter
+    panics ("makeslice: len out of range") for an absurd one. *)
+Theorem importer_new_panics_refuted :
+  forall H : bytes -> bytes, imp_run H 9223372036854775807 [] = IPanic.
+Proof. intros H. vm_compute. reflexivity. Qed.
 
-Theorem decompress_panics_refuted :
-  decompress hostile_compress_inner_first = IPanic /\
-  decompress hostile_compress_one_leaf = IPanic /\
-  decompress hostile_compress_shared = IPanic.
+Theorem importer_panic_only_new H v stream :
+  imp_run H v stream = IPanic -> max_nonces_len <= v.
+Proof.
+  intros E. destruct (Z_lt_le_dec v max_nonces_len) as [L|G]; [|exact G].
+  exfalso. exact (importer_total_gen H v stream L E).
+Qed.
+
+(** The streams that used to panic the importer (negative node version) are now errors. *)
+Definition hostile_negative_version : list (option enode) :=
+  [Some (ENode (Some [107%N]) (Some [118%N]) (-1) 0)].
+Definition hostile_negative_inner : list (option enode) :=
+  [Some (ENode (Some [97%N]) (Some [1%N]) 1 0);
+   Some (ENode (Some [98%N]) (Some [2%N]) 1 0);
+   Some (ENode (Some [98%N]) None (-9223372036854775808) 1)].
+
+Lemma hostile_plain_now_errors (H : bytes -> bytes) :
+  imp_run H 1 hostile_negative_version = IErr /\ imp_run H 1 hostile_negative_inner = IErr.
 Proof. vm_compute. auto. Qed.
 
-Theorem compress_importer_panics_refuted :
-  forall H : bytes -> bytes,
-    cimp_run H 1 (map Some hostile_compress_inner_first) = IPanic /\
-    cimp_run H 1 (map Some hostile_compress_one_leaf) = IPanic /\
-    cimp_run H 1 (map Some hostile_compress_shared) = IPanic /\
-    cimp_run H 1 [None] = IPanic.
-Proof. intros H. vm_compute. auto. Qed.
+(** ** Compress importer *)
+Lemma delta_decode_no_panic key last : delta_decode key last <> IPanic.
+Proof.
+  unfold delta_decode. destruct (uvarint_dec (key_bytes key)) as [[shared c]|]; [|discriminate].
+  destruct (shared =? 0)%N; [discriminate|].
+  destruct (N.of_nat (length last) <? shared)%N; discriminate.
+Qed.
 
-(** The compress exporter itself indexes its version stack unchecked; harmless behind the
-    real exporter (compress_roundtrip), a panic behind any other NodeExporter. *)
+Lemma cimp_step_no_panic st n : cimp_step st n <> IPanic.
+Proof.
+  unfold cimp_step. destruct (e_height n =? 0).
+  - pose proof (delta_decode_no_panic (e_key n) (ci_last st)) as D.
+    destruct (delta_decode (e_key n) (ci_last st)); cbn [ibind]; [discriminate|discriminate|congruence].
+  - destruct (ci_minkeys st) as [|k mks]; [cbn; discriminate|].
+    destruct (ci_vers st) as [|a [|b rest]]; cbn [length Nat.ltb Nat.leb orb]; discriminate.
+Qed.
+
+Lemma cimp_add_no_panic st on : cimp_add st on <> IPanic.
+Proof. destruct on as [n|]; cbn [cimp_add]; [apply cimp_step_no_panic|discriminate]. Qed.
+
+Theorem decompress_total : forall l, decompress l <> IPanic.
+Proof.
+  unfold decompress. generalize cimp_init. intros st l. revert st.
+  induction l as [|c l IH]; intros st; cbn [decompress_from]; [discriminate|].
+  pose proof (cimp_step_no_panic st c) as S.
+  destruct (cimp_step st c) as [[st' n]| |]; cbn [ibind]; [|discriminate|congruence].
+  specialize (IH st'). destruct (decompress_from st' l); cbn [ibind]; [discriminate|discriminate|congruence].
+Qed.
+
+Lemma cimp_adds_no_panic H : forall stream cs st, cimp_adds H cs st stream <> IPanic.
+Proof.
+  induction stream as [|on rest IH]; intros cs st; cbn [cimp_adds]; [discriminate|].
+  pose proof (cimp_add_no_panic cs on) as C.
+  destruct (cimp_add cs on) as [[cs' n]| |]; cbn [ibind]; [|discriminate|congruence].
+  pose proof (imp_add_no_panic H st (Some n)) as A.
+  destruct (imp_add H st (Some n)) as [st'| |]; cbn [ibind]; [apply IH|discriminate|congruence].
+Qed.
+
+Theorem compress_importer_total_gen H v stream :
+  v < max_nonces_len -> cimp_run H v stream <> IPanic.
+Proof.
+  intros B. unfold cimp_run. pose proof (imp_new_no_panic 0 true v B) as N.
+  destruct (imp_new 0 true v) as [st0| |]; cbn [ibind]; [|discriminate|congruence].
+  pose proof (cimp_adds_no_panic H stream cimp_init st0) as A.
+  destruct (cimp_adds H cimp_init st0 stream) as [st| |]; cbn [ibind]; [|discriminate|congruence].
+  apply imp_commit_no_panic.
+Qed.
+
+Theorem compress_importer_total H v stream :
+  0 <= v < max_nonces_len -> cimp_run H v stream <> IPanic.
+Proof. intros B. apply compress_importer_total_gen. lia. Qed.
+
+(** The streams that used to panic the compress importer are now errors:
+    (a) an inner node first, (b) one leaf then an inner node, (c) a shared-prefix length
+    beyond the previous key, (d) a nil node. *)
+Definition hostile_compress_inner_first : list cnode := [ENode None None 0 1].
+Definition hostile_compress_one_leaf : list cnode :=
+  [ENode (Some [0%N; 97%N]) (Some [1%N]) 1 0; ENode None None 0 1].
+Definition hostile_compress_shared : list cnode := [ENode (Some [5%N; 97%N]) (Some [1%N]) 1 0].
+
+Lemma hostile_compress_now_errors (H : bytes -> bytes) :
+  decompress hostile_compress_inner_first = IErr /\
+  decompress hostile_compress_one_leaf = IErr /\
+  decompress hostile_compress_shared = IErr /\
+  cimp_run H 1 (map Some hostile_compress_inner_first) = IErr /\
+  cimp_run H 1 (map Some hostile_compress_one_leaf) = IErr /\
+  cimp_run H 1 (map Some hostile_compress_shared) = IErr /\
+  cimp_run H 1 [None] = IErr.
+Proof. vm_compute. auto 10. Qed.
+
+(** Still unguarded (not part of the importer property): the compress EXPORTER indexes its
+    version stack unchecked; harmless behind the real exporter (compress_roundtrip), a
+    panic behind any other NodeExporter. *)
 Theorem compress_panics_refuted : compress [ENode (Some [97%N]) None 1 1] = IPanic.
 Proof. vm_compute. reflexivity. Qed.
-
-(** ... and these are the only ones. *)
-Theorem cimp_step_panic_characterised st n :
-  cimp_step st n = IPanic ->
-  (e_height n <> 0 /\ (length (ci_minkeys st) < 1 \/ length (ci_vers st) < 2)%nat) \/
-  (e_height n = 0 /\ exists shared c,
-      uvarint_dec (key_bytes (e_key n)) = Some (shared, c) /\
-      (N.of_nat (length (ci_last st)) < shared)%N).
-Proof.
-  unfold cimp_step. destruct (e_height n =? 0) eqn:E.
-  - intros P. right. split; [lia|]. unfold delta_decode in P.
-    destruct (uvarint_dec (key_bytes (e_key n))) as [[shared c]|]; [|discriminate].
-    exists shared, c. split; [reflexivity|].
-    destruct (shared =? 0)%N; [discriminate|].
-    destruct (N.of_nat (length (ci_last st)) <? shared)%N eqn:E1; [lia|discriminate].
-  - intros P. left. split; [lia|].
-    destruct (ci_minkeys st) as [|k mks]; [left; simpl; lia|].
-    destruct (ci_vers st) as [|a [|b rest]]; try discriminate; right; simpl; lia.
-Qed.
 
 (** * 5. Errors expose nothing: only a successful Commit makes a root visible *)
 Section SessionFacts.
